@@ -15,3 +15,11 @@ package v1
 //@   trusted
 //@   returns err
 //@ end
+
+// Token validation (issue message, genesis): the declared cap covers the initial supply and the scale is within range
+// (what IssueToken assumes of a validated message, C09)
+//@ func Token.Validate
+//@   property C09
+//@   returns err
+//@   ensures cap_covers_initial: err == nil ==> t.InitialSupply <= t.MaxSupply && t.Scale <= 18
+//@ end
